@@ -4,4 +4,5 @@ import "verifharness/internal/syncx"
 
 func init() {
 	replayers["sync"] = syncx.Replay
+	replayers["syncsession"] = syncx.ReplaySession
 }
